@@ -156,7 +156,10 @@ def mu_boundary_corr(rep, rng, dev, tier, numpy_scalars=False):
 
     def cur(t):
         k = min(int(round(t)), nseq - 1)
-        return {nm: (np.float64(v) if numpy_scalars else v) for nm, v in zip(names_all, script[k])}
+        # a terminal whose current is zero may simply be left out of the dict (same assignment, other form): at every other
+        # call the zero entries of every other terminal are omitted
+        return {nm: (np.float64(v) if numpy_scalars else v) for j, (nm, v) in enumerate(zip(names_all, script[k]))
+                if not (v == 0 and (k + j) % 2 == 0 and k > 0)}
 
     opts = runs.make_options(None, solve_time=1.0)
     solver = TDGLSolver(dev, opts, terminal_currents=cur)
@@ -194,7 +197,7 @@ def mu_boundary_corr(rep, rng, dev, tier, numpy_scalars=False):
                           "current density of the latest currents (stale change-only cache)",
                           {"call": k, "currents_last_calls": script[max(0, k - 2):k + 1],
                            "max_abs_diff": float(np.max(np.abs(snaps[-1] - want_mb)))})
-        Ilits.append(coq_list([flit(scaled[nm]) for nm in order]))
+        Ilits.append(coq_list([flit(scaled.get(nm, 0.0)) for nm in order]))
     nb = len(solver.mu_boundary)
     # hypothesis of C01_cache_coherent: the terminals cover disjoint sets of boundary edges
     alle = np.concatenate([np.asarray(t.boundary_edge_indices, dtype=int) for t in info])
